@@ -58,8 +58,7 @@ def big_config(quick):
     """Checked exhaustively by TLC only (too large to replay transition by transition)."""
     c = config(True)
     c["max_loggers"] = 3
-    c["setter_args"]["JSONMode"] = [(1, 0)]
-    c["setter_args"]["Attrs"] = [(1, 1)]
+    c["setter_args"] = {"Level": [(2, 0)], "Skip": [(1, 0)], "Writer": [(1, 0)], "JSONMode": [(1, 0)], "Attrs": [(1, 1)]}
     return c
 
 
